@@ -462,12 +462,18 @@ def run_case(case):
             # metadata that queries do not show (is the map still open?): an identical twin that was never
             # elaborated must answer one further `add_resource` exactly as the elaborated instance does
             try:
-                _, _, _, mm2 = make(kind, lib.rng_for(case["seed"], case["idx"], 1919))
+                c2, _, _, mm2 = make(kind, lib.rng_for(case["seed"], case["idx"], 1919))
                 if fmt_map(mm2) == before:
                     pa, pb = probe_add(mm2), probe_add(mm)
                     if pa != pb:
                         out["fails"].append(("C19", f"{kind} {descr}: after elaboration the memory map answers add_resource with {pb}, "
                                                     f"a never-elaborated twin with {pa}", "map-openness-changed"))
+                    if kind == "WishboneCSRBridge":
+                        # … and the metadata of what the component was GIVEN: the memory map of the CSR bus behind the bridge
+                        pa, pb = probe_add(c2.csr_bus.memory_map), probe_add(c.csr_bus.memory_map)
+                        if pa != pb:
+                            out["fails"].append(("C19", f"{kind} {descr}: after the bridge's elaboration the memory map of the CSR bus behind it answers "
+                                                        f"add_resource with {pb}, that of a never-elaborated twin with {pa}", "neighbour-map-openness-changed"))
             except Timeout:
                 raise
             except (ValueError, TypeError):
